@@ -93,6 +93,7 @@ impl UpSrc$SFX {
             $SUBPOST,
     {
         proof { g@ = self.post(g@, m); }
+        if $LATE && nondet_bool() { return; }   // the source greets later, at top level (world)
         // a conformant source greets inside the subscribing call ...
         $OP__source_talkback$SFX(h, g, c, Message::Handshake(UpTb$SFX {}));
         // ... and may emit, end or fail before returning
